@@ -363,13 +363,27 @@ func registerIntrinsics(in *Interp) {
 		f := strings.Repeat("%v", len(vals))
 		return done(st.sprintf(f, vals))
 	}
-	I["fmt.Fprintf"] = func(st *State, fr *Frame, a []Value, _ ssa.Value) (Value, int) {
+	I["fmt.Fprintf"] = func(st *State, fr *Frame, a []Value, res ssa.Value) (Value, int) {
+		// formatting into a *bytes.Buffer is modelled (its content may be observable); other writers are dropped
+		if w, ok := a[0].(Iface); ok && w.T != nil && w.T.String() == "*bytes.Buffer" {
+			if p := st.in.prog.ImportedPackage("bytes"); p != nil {
+				ms := st.in.prog.MethodSets.MethodSet(w.T)
+				if sel := ms.Lookup(nil, "WriteString"); sel != nil {
+					text := st.sprintf(strArg(a[1]), st.sliceVals(a[2].(Slice)))
+					st.pushFrame(st.in.prog.MethodValue(sel), []Value{w.V, text}, nil, res)
+					return nil, hTaken
+				}
+			}
+		}
 		return done(Tuple{mkI64(0), Iface{}})
 	}
-	I["fmt.Fprintln"] = I["fmt.Fprintf"]
-	I["fmt.Fprint"] = I["fmt.Fprintf"]
-	I["fmt.Println"] = I["fmt.Fprintf"]
-	I["fmt.Printf"] = I["fmt.Fprintf"]
+	drop := func(st *State, fr *Frame, a []Value, _ ssa.Value) (Value, int) {
+		return done(Tuple{mkI64(0), Iface{}})
+	}
+	I["fmt.Fprintln"] = drop
+	I["fmt.Fprint"] = drop
+	I["fmt.Println"] = drop
+	I["fmt.Printf"] = drop
 	I["errors.Is"] = func(st *State, fr *Frame, a []Value, res ssa.Value) (Value, int) {
 		e, t := a[0].(Iface), a[1].(Iface)
 		if e.T == nil || t.T == nil {
@@ -614,6 +628,9 @@ func registerIntrinsics(in *Interp) {
 
 	// ---- encoding/binary fast paths are interpreted; runtime helpers ----
 	nop := func(st *State, fr *Frame, a []Value, _ ssa.Value) (Value, int) { return done(nil) }
+	I["runtime.Caller"] = func(st *State, fr *Frame, a []Value, _ ssa.Value) (Value, int) {
+		return done(Tuple{mkInt(64, false, 0), Str{}, mkI64(0), Bool{}})
+	}
 	I["runtime.KeepAlive"] = nop
 	I["runtime.SetFinalizer"] = nop
 	I["runtime.Gosched"] = nop
@@ -623,6 +640,23 @@ func registerIntrinsics(in *Interp) {
 	I["runtime.NumCPU"] = I["runtime.GOMAXPROCS"]
 	I["testing.Testing"] = func(st *State, fr *Frame, a []Value, _ ssa.Value) (Value, int) { return done(Bool{C: true}) }
 
+	I["context.WithValue"] = func(st *State, fr *Frame, a []Value, _ ssa.Value) (Value, int) {
+		parent, key := a[0].(Iface), a[1].(Iface)
+		if parent.T == nil {
+			panic(goPanic{"cannot create context from nil parent"})
+		}
+		if key.T == nil {
+			panic(goPanic{"nil key"})
+		}
+		if !types.Comparable(key.T) {
+			panic(goPanic{"key is not comparable"})
+		}
+		t := st.in.prog.ImportedPackage("context").Type("valueCtx").Type()
+		id := st.alloc(t)
+		o := st.wobj(id)
+		o.Elems[0], o.Elems[1], o.Elems[2] = parent, key, a[2]
+		return done(Iface{T: types.NewPointer(t), V: Ptr{Obj: id}})
+	}
 	I["maps.clone"] = func(st *State, fr *Frame, a []Value, _ ssa.Value) (Value, int) {
 		e := a[0].(Iface)
 		m := e.V.(Map)
@@ -636,6 +670,7 @@ func registerIntrinsics(in *Interp) {
 	registerSyncIntrinsics(in)
 	registerCryptoIntrinsics(in)
 	registerBase64Intrinsics(in)
+	registerHandlerIntrinsics(in)
 	registerTimeIntrinsics(in)
 }
 
